@@ -20,7 +20,7 @@ vars == <<l, pre, st, aux>>
 
 Blank == InitState(<<>>, {}, "A")
 
-NoAux == [infrag |-> FALSE, seq |-> <<>>, stuck |-> FALSE, joinfree |-> FALSE]
+NoAux == [infrag |-> FALSE, seq |-> <<>>, stuck |-> FALSE, joinfree |-> FALSE, feats |-> {}]
 Init == l = 1 /\ pre = Blank /\ st = Blank /\ aux = NoAux
 
 ResIds(e) == {e.res[i].id : i \in 1..Len(e.res)}
@@ -38,8 +38,8 @@ EvReset ==
     /\ st' = InitState(e.script, SeqToSet(e.peers), e.init)
     /\ pre' = st'
     /\ aux' = IF InFragment(e.script, FALSE)
-              THEN LET r == SeqRun(e.script, e.init) IN [infrag |-> TRUE, seq |-> r.calls, stuck |-> r.stuck, joinfree |-> e.joinfree]
-              ELSE [NoAux EXCEPT !.joinfree = e.joinfree]
+              THEN LET r == SeqRun(e.script, e.init) IN [infrag |-> TRUE, seq |-> r.calls, stuck |-> r.stuck, joinfree |-> e.joinfree, feats |-> SeqToSet(e.feats)]
+              ELSE [NoAux EXCEPT !.joinfree = e.joinfree, !.feats = SeqToSet(e.feats)]
 
 EvRun ==
     LET e == Rec[l] IN
